@@ -247,7 +247,15 @@ func ruleBoundScoped(c *Ctx, only func(*Func) bool) {
 			case "C":
 				c.R.Hold("R-BOUND/site", p.Pos(op.Ast), f.Name, op.Desc, "cancellation arm", false)
 			default:
-				if reason, ok := reviewedBare[rootName(f)+"|"+op.Desc]; ok {
+				desc := op.Desc
+				if _, ok := reviewedBare[rootName(f)+"|"+desc]; !ok {
+					// `for range ch` waits like `for { <-ch }` and additionally ends
+					// when the channel is closed: a reviewed bare receive covers it
+					if strings.HasPrefix(desc, "range ") {
+						desc = "recv " + strings.TrimPrefix(desc, "range ")
+					}
+				}
+				if reason, ok := reviewedBare[rootName(f)+"|"+desc]; ok {
 					c.R.Except("R-BOUND/site", p.Pos(op.Ast), f.Name, op.Desc, reason)
 				} else {
 					c.R.Violate("R-BOUND/site", p.Pos(op.Ast), f.Name, op.Desc, "bare blocking operation (no default, timer or cancellation arm) that is not in the reviewed table: it can wait forever", nil)
